@@ -203,6 +203,15 @@ func (fx *fnExec) step(in ssa.Instruction, st *State, b *ssa.BasicBlock) {
 		}
 		fail("%s: defer %s not supported", fx.fn, in.Call.String())
 	case *ssa.Go:
+		// the goroutine is dropped in abstract units, but the unit's own call-site clauses see the launch
+		if callee := in.Call.StaticCallee(); callee != nil && fx.c != nil && fx.c.Abstract {
+			args := make([]Val, len(in.Call.Args))
+			for i, a := range in.Call.Args {
+				args[i] = fx.value(a, st)
+			}
+			fx.curCall = in
+			fx.callSiteHooks(callee, args, st, in.Pos())
+		}
 		if fx.abstractOK("go " + in.Call.String()) {
 			return
 		}
